@@ -5,8 +5,10 @@
 //!     well-formed stream and on a malformed stream (tree-level mutations, stray end tags, cuts);
 //!     the tree -> event-list serialiser is itself checked against quick-xml's tokenizer;
 //! (3) helper ties: unescape, parse::<u32/u64>, is_jacoco through the real producer;
-//! (4) two named findings (EOF inside a nested loop never returns; cb/mb are allocation sizes),
-//!     both observed in a child process with a wall-clock limit.
+//! (4) corpus: the witnesses of the former hang (EOF inside a nested element; fixed in /repo
+//!     34e25d5: now `err Parse`) re-checked in a child process with a wall-clock limit – a
+//!     recurrence is a plain violation; one named finding (cb/mb are allocation sizes,
+//!     C14-jacoco-branch-vector-alloc) observed in a child process.
 mod gen;
 mod mal;
 mod ties;
@@ -23,8 +25,7 @@ use std::sync::Mutex;
 use std::time::{Duration, Instant};
 use tree::*;
 
-const F_HANG: &str = "C10-eof-in-nested-loop-hang";
-const F_ALLOC: &str = "C10-branch-vector-alloc";
+const F_ALLOC: &str = "C14-jacoco-branch-vector-alloc";
 /// an in-process parse that takes longer than this is reported by the watchdog
 const INPROC_LIMIT_S: u64 = 10;
 
@@ -197,6 +198,10 @@ struct Case {
     timeout_ms: u64,
 }
 
+fn c_clone(c: &Case) -> Case {
+    Case { stream: c.stream.clone(), xml: c.xml.clone(), request: c.request.clone(), spec: c.spec.clone(), imp: c.imp.clone(), child: c.child, timeout_ms: c.timeout_ms }
+}
+
 fn case_json(c: &Case, model: &str) -> Value {
     json!({"op": "jacoco", "stream": c.stream, "child": c.child, "timeout_ms": c.timeout_ms,
            "xml_hex": fhex(&c.xml), "xml": String::from_utf8_lossy(&c.xml), "request": c.request,
@@ -211,11 +216,6 @@ fn render(doc: &Doc) -> Vec<u8> {
 }
 fn oracle_fails(doc: &Doc) -> bool {
     run_impl(&render(doc)) != spec_of(doc)
-}
-
-/// every element closed?
-fn balanced(toks: &[Tok]) -> bool {
-    toks.iter().map(|t| t.open.as_ref().map(|o| o.1 as i64).unwrap_or(0)).sum::<i64>() == 0
 }
 
 fn self_check(rep: &mut Report, stream: &str, xml: &[u8], events: &[String]) {
@@ -272,7 +272,7 @@ pub fn run(rep: &mut Report) {
                 attributes, quotes, entity/charref escaping, empty-element vs start/end, prefixes, whitespace; each compared \
                 with the independent semantics (oracle) and with the Lean event model; plus a malformed stream (one \
                 tree-level mutation: dropped/duplicated/prefixed attributes, bad numbers, bad entities, duplicates, \
-                misplaced elements, stray end tags, cuts inside a tag, truncation) for the tie, and helper ties (unescape, \
+                misplaced elements, stray end tags, cuts inside a tag or text, truncation outside and inside a package (the latter must be Err(Parse))) for the tie, and helper ties (unescape, \
                 parse number, is_jacoco via producer). non-trivial (well-formed) = >=1 class with >=1 method and >=1 \
                 sourcefile with both a branch line and a statement line; malformed cases count as non-trivial; distinct = \
                 distinct XML bytes"
@@ -283,7 +283,7 @@ pub fn run(rep: &mut Report) {
     let mut rng = Rng::new(rep.seed ^ 0xC10).fork();
     let no_model = std::env::var("VERIF_NO_MODEL").is_ok();
 
-    // ---- the two named findings: start their children now, look at them at the end ------------------
+    // ---- corpus witnesses and the named finding: start their children now, look at them at the end ------------------
     let hang_witness: Vec<u8> = b"<report><package name=\"p\"><class name=\"A\">".to_vec();
     let mut hang_children: Vec<(String, Vec<u8>, Pending)> = vec![];
     let p = spawn_child("--child-parse", &hang_witness, &rep.workdir, "hang0", 5000);
@@ -302,11 +302,11 @@ pub fn run(rep: &mut Report) {
     let alloc_child = spawn_child("--child-alloc", &alloc_witness, &rep.workdir, "alloc0", 20000);
 
     let mut cases: Vec<Case> = vec![];
-    let mut pending: Vec<(usize, Pending)> = vec![];
     let mut isj_samples: Vec<Vec<u8>> = vec![];
 
-    // ---- truncation between elements inside a package (child process, few) -------------------------
-    let n_trunc = if rep.thorough() { 12 } else { 6 };
+    // ---- truncation between elements inside a package: `err Parse` since 34e25d5 (in-process, under
+    // the watchdog: a recurrence of the endless loop is reported by it as an oracle failure) ----------
+    let n_trunc = rep.budget(400, 10);
     let mut made = 0;
     while made < n_trunc {
         let mut g = G::new(rng.fork());
@@ -324,17 +324,27 @@ pub fn run(rep: &mut Report) {
         let xml = xml_of(&t);
         let events = events_of(&t);
         self_check(rep, "trunc.inside_package", &xml, &events);
-        let idx = cases.len();
-        pending.push((idx, spawn_child("--child-parse", &xml, &rep.workdir, &format!("trunc{}", made), 1500)));
-        cases.push(Case {
+        let imp = run_impl(&xml);
+        rep.case(&fhex(&xml), true);
+        rep.count("malformed.mutation.trunc.inside_package");
+        let c = Case {
             stream: "trunc.inside_package".into(),
             request: request_of(&events),
             xml,
             spec: None,
-            imp: String::new(),
-            child: true,
-            timeout_ms: 1500,
-        });
+            imp,
+            child: false,
+            timeout_ms: 0,
+        };
+        if c.imp != "err Parse" {
+            rep.fail(
+                "oracle",
+                None,
+                "the input ends while a <package> element is open: parse_jacoco_xml_report must return Err(Parse) (unexpected end of file)".into(),
+                case_json(&Case { spec: Some("err Parse".into()), ..c_clone(&c) }, ""),
+            );
+        }
+        cases.push(c);
         made += 1;
     }
 
@@ -407,11 +417,7 @@ pub fn run(rep: &mut Report) {
             0 => {
                 // cut inside a token
                 let toks = tokens(&nodes);
-                // (a cut inside text while a package is open would be an EOF inside a nested loop:
-                // that is the truncation stream's business)
-                let ks: Vec<usize> = (0..toks.len())
-                    .filter(|&k| toks[k].bytes.len() >= 2 && !(toks[k].ev == Ev::Text && package_open_at(&toks, k)))
-                    .collect();
+                let ks: Vec<usize> = (0..toks.len()).filter(|&k| toks[k].bytes.len() >= 2).collect();
                 let k = ks[g.rng.below(ks.len() as u64) as usize];
                 let kind = if toks[k].ev == Ev::Text { "cut.inside_text" } else { "cut.inside_markup" };
                 (kind.to_string(), cut_inside(&mut g, &toks, k))
@@ -440,28 +446,11 @@ pub fn run(rep: &mut Report) {
         };
         let xml = xml_of(&toks);
         let events = events_of(&toks);
-        // input that ends inside an open package without a tokenizer error: the real parser would
-        // never return; such cases are only produced by the cut of a text token
-        let risky = events.last().map(|e| e != "x").unwrap_or(true) && !balanced(&toks) && package_open_at(&toks, toks.len());
-        if risky {
-            rep.count("malformed.skipped_eof_inside_package");
-            continue;
-        }
         self_check(rep, &label, &xml, &events);
         rep.case(&fhex(&xml), true);
         rep.count(&format!("malformed.mutation.{}", label));
         let imp = run_impl(&xml);
         cases.push(Case { stream: label, request: request_of(&events), xml, spec: None, imp, child: false, timeout_ms: 0 });
-    }
-
-    // ---- children of the truncation cases -----------------------------------------------------------------
-    for (idx, p) in pending {
-        cases[idx].imp = harvest(p);
-        rep.case(&fhex(&cases[idx].xml), true);
-        rep.count("malformed.mutation.trunc.inside_package");
-        if cases[idx].imp == "diverge" {
-            rep.count(F_HANG);
-        }
     }
 
     // ---- the tie ----------------------------------------------------------------------------------------------
@@ -516,24 +505,23 @@ pub fn run(rep: &mut Report) {
     }
 
     // ---- named findings ------------------------------------------------------------------------------------------
+    // corpus: witnesses of the former hang; anything but `err Parse` is a plain violation
     for (name, xml, p) in hang_children {
         let out = harvest(p);
-        rep.case(&format!("finding.hang {}", fhex(&xml)), true);
-        if out == "diverge" {
-            rep.count(F_HANG);
+        rep.case(&format!("corpus.eof_inside_element {}", fhex(&xml)), true);
+        rep.count(&format!("corpus.eof_inside_element.{}", out.split(' ').take(2).collect::<Vec<_>>().join(" ")));
+        if out != "err Parse" {
             rep.fail(
                 "oracle",
-                Some(F_HANG),
-                format!("witness '{}': the input ends (EOF) while a <package>/<class>/<method>/<sourcefile> element is open; parse_jacoco_xml_report did not return within 5 s (the nested loops have no Event::Eof arm)", name),
-                json!({"op": "finding.hang", "xml_hex": fhex(&xml), "xml": String::from_utf8_lossy(&xml), "timeout_ms": 5000,
-                       "spec": "returns (Ok or Err)", "impl": "no answer within the limit"}),
+                None,
+                format!("corpus witness '{}': the input ends (EOF) while a <package>/<class>/<method>/<sourcefile> element is open; expected Err(Parse), observed '{}' ('diverge' = no answer within 5 s)", name, out),
+                json!({"op": "corpus.eof", "xml_hex": fhex(&xml), "xml": String::from_utf8_lossy(&xml), "timeout_ms": 5000,
+                       "spec": "err Parse", "impl": out}),
             );
-        } else {
-            rep.count(&format!("finding.hang.absent.{}", out.split(' ').next().unwrap_or("")));
         }
     }
     check_alloc(rep, &alloc_witness, harvest(alloc_child));
-    rep.notes.push("streams: fixtures of /repo/test/jacoco; well-formed trees (oracle sem + model tie); malformed trees (model tie; outcome kinds counted under malformed.*); truncation inside a package (child process, 1.5 s limit, expected observation: no answer = model's diverge); unescape / parsenum / isjacoco helper ties; two named findings checked once per run in child processes".into());
+    rep.notes.push("streams: fixtures of /repo/test/jacoco; well-formed trees (oracle sem + model tie); malformed trees (model tie; outcome kinds counted under malformed.*); truncation inside a package (in-process under the watchdog, expected `err Parse` since /repo 34e25d5); unescape / parsenum / isjacoco helper ties; corpus witnesses of the former EOF hang and the named finding C14-jacoco-branch-vector-alloc checked once per run in child processes".into());
     rep.notes.push("every event list sent to the model is checked against quick-xml's own tokenizer on the same bytes (harness.serialiser_mismatch counts differences: none expected)".into());
 }
 
@@ -615,13 +603,13 @@ pub fn replay(rep: &mut Report, case: &Value) {
                 rep.fail("disagreement", None, format!("impl '{}' vs model '{}'", imp, model), case.clone());
             }
         }
-        "finding.hang" => {
+        "finding.hang" | "corpus.eof" => {
             let xml = unhex(&s("xml_hex"));
             let t = case["timeout_ms"].as_u64().unwrap_or(5000);
             let out = harvest(spawn_child("--child-parse", &xml, &rep.workdir, "replay", t));
             rep.case(&fhex(&xml), true);
-            if out == "diverge" {
-                rep.fail("oracle", Some(F_HANG), format!("parse_jacoco_xml_report did not return within {} ms", t), case.clone());
+            if out != "err Parse" {
+                rep.fail("oracle", None, format!("EOF inside an element: expected 'err Parse', observed '{}' (limit {} ms)", out, t), case.clone());
             }
         }
         "finding.alloc" => {
